@@ -1,7 +1,441 @@
 package main
 
-func (ex *Exec) evAccess(c *Cell, a *ArrObj, idx int, write bool) {}
-func (ex *Exec) evMap(m *MapVal, write bool)                      {}
-func (ex *Exec) evLock(mu Value, op string)                       {}
-func (ex *Exec) evSpawn(g *gor)                                   {}
-func (ex *Exec) evChan(ch *ChanVal, op string)                    {}
+// Event mode (C08): the engine records, per logical thread, lock operations and accesses to
+// objects that existed before the concurrent phase began; the schedule is then a vector of SMT
+// timestamps and a data race is a satisfiable "two conflicting accesses at the same instant".
+
+import (
+	"fmt"
+	"sort"
+
+	"golang.org/x/tools/go/ssa"
+)
+
+const (
+	evLock = iota
+	evUnlock
+	evRLock
+	evRUnlock
+	evRead
+	evWrite
+	evSpawn
+	evSend
+	evRecv
+	evClose
+	evStart
+)
+
+type locKey struct {
+	cell *Cell
+	arr  *ArrObj
+	idx  int
+	m    *MapVal
+}
+
+type event struct {
+	thread int // logical thread index
+	kind   int
+	loc    locKey
+	mu     *Cell
+	ch     *ChanVal
+	child  int // spawned logical thread
+	where  string
+}
+
+type evThread struct {
+	g   int
+	tag string
+}
+
+type eventLogT struct {
+	events    []event
+	threads   []evThread
+	tindex    map[evThread]int
+	watermark int
+	gtag      map[int]string // goroutine id -> op tag
+	gthread   map[int]int    // goroutine id -> logical thread (for spawned goroutines)
+	lastKey   map[int]string // per thread: last recorded access (dedup)
+}
+
+func (ex *Exec) evlog() *eventLogT {
+	if ex.evl == nil {
+		ex.evl = &eventLogT{tindex: map[evThread]int{}, gtag: map[int]string{}, gthread: map[int]int{}, lastKey: map[int]string{}, watermark: -1}
+	}
+	return ex.evl
+}
+
+func (l *eventLogT) threadOf(g int, tag string) int {
+	k := evThread{g, tag}
+	if i, ok := l.tindex[k]; ok {
+		return i
+	}
+	i := len(l.threads)
+	l.threads = append(l.threads, k)
+	l.tindex[k] = i
+	return i
+}
+
+func (ex *Exec) curThread() int {
+	l := ex.evlog()
+	g := ex.curG.id
+	return l.threadOf(g, l.gtag[g])
+}
+
+func (ex *Exec) whereNow() string {
+	if f := ex.curFrame(); f != nil {
+		s := f.fn.String()
+		if f.caller != nil {
+			s += " <- " + f.caller.fn.String()
+		}
+		return s
+	}
+	return ""
+}
+
+func (ex *Exec) evAccess(c *Cell, a *ArrObj, idx int, write bool) {
+	l := ex.evlog()
+	if l.gtag[ex.curG.id] == "" {
+		return
+	}
+	var k locKey
+	if c != nil {
+		if c.id > l.watermark {
+			return
+		}
+		k.cell = c
+	} else {
+		if a == nil || a.id > l.watermark {
+			return
+		}
+		k.arr, k.idx = a, idx
+		if idx < 0 {
+			k.idx = -1
+		}
+	}
+	ex.evRecordAccess(k, write)
+}
+
+func (ex *Exec) evRecordAccess(k locKey, write bool) {
+	l := ex.evlog()
+	t := ex.curThread()
+	kind := evRead
+	if write {
+		kind = evWrite
+	}
+	key := fmt.Sprintf("%p/%p/%d/%p/%d", k.cell, k.arr, k.idx, k.m, kind)
+	if l.lastKey[t] == key {
+		return
+	}
+	l.lastKey[t] = key
+	l.events = append(l.events, event{thread: t, kind: kind, loc: k, where: ex.whereNow()})
+}
+
+func (ex *Exec) evMap(m *MapVal, write bool) {
+	l := ex.evlog()
+	if l.gtag[ex.curG.id] == "" || m == nil || m.id > l.watermark {
+		return
+	}
+	ex.evRecordAccess(locKey{m: m}, write)
+}
+
+func (ex *Exec) evLock(mu Value, op string) {
+	l := ex.evlog()
+	if l.gtag[ex.curG.id] == "" {
+		return
+	}
+	p, ok := mu.(*PtrVal)
+	if !ok || p.cell == nil {
+		return
+	}
+	kind := map[string]int{"Lock": evLock, "Unlock": evUnlock, "RLock": evRLock, "RUnlock": evRUnlock}[op]
+	t := ex.curThread()
+	l.lastKey[t] = ""
+	l.events = append(l.events, event{thread: t, kind: kind, mu: p.cell, where: ex.whereNow()})
+}
+
+func (ex *Exec) evSpawn(g *gor) {
+	l := ex.evlog()
+	tag := l.gtag[ex.curG.id]
+	if tag == "" {
+		return
+	}
+	// the child inherits the operation tag; it is a logical thread of its own
+	l.gtag[g.id] = tag + "/go" + fmt.Sprint(g.id)
+	child := l.threadOf(g.id, l.gtag[g.id])
+	t := ex.curThread()
+	l.lastKey[t] = ""
+	l.events = append(l.events, event{thread: t, kind: evSpawn, child: child, where: ex.whereNow()})
+}
+
+func (ex *Exec) evChan(ch *ChanVal, op string) {
+	l := ex.evlog()
+	if l.gtag[ex.curG.id] == "" {
+		return
+	}
+	kind := map[string]int{"send": evSend, "recv": evRecv, "close": evClose}[op]
+	t := ex.curThread()
+	l.lastKey[t] = ""
+	l.events = append(l.events, event{thread: t, kind: kind, ch: ch, where: ex.whereNow()})
+}
+
+func registerEventAPI() {
+	// vEventsOn(tag): from now on the current goroutine's events belong to logical thread `tag`
+	apiFns["vEventsOn"] = func(ex *Exec, fn *ssa.Function, a []Value) Value {
+		l := ex.evlog()
+		if l.watermark < 0 {
+			l.watermark = ex.idc
+		}
+		ex.evOn = true
+		l.gtag[ex.curG.id] = ex.tagOf(a[0])
+		return nil
+	}
+	apiFns["vEventsOff"] = func(ex *Exec, fn *ssa.Function, a []Value) Value {
+		l := ex.evlog()
+		l.gtag[ex.curG.id] = ""
+		return nil
+	}
+	// vConcurrently(f, g): symbolically f then g, each as its own logical thread
+	apiFns["vConcurrently"] = func(ex *Exec, fn *ssa.Function, a []Value) Value {
+		l := ex.evlog()
+		if l.watermark < 0 {
+			l.watermark = ex.idc
+		}
+		ex.evOn = true
+		g := ex.curG.id
+		for i, f := range ex.variadicArgs(a[0]) {
+			l.gtag[g] = string(rune('A' + i))
+			ex.callValue(f, nil, nil)
+		}
+		l.gtag[g] = ""
+		return nil
+	}
+	apiFns["vRaceCheck"] = func(ex *Exec, fn *ssa.Function, a []Value) Value {
+		ex.raceCheck(ex.tagOf(a[0]))
+		return nil
+	}
+}
+
+// raceCheck encodes the recorded events as a timestamp problem and asks, for every pair of
+// conflicting accesses of different logical threads, whether they can happen at the same instant.
+func (ex *Exec) raceCheck(name string) {
+	l := ex.evlog()
+	h := ex.harness
+	tt := ex.tt
+	const W = 16
+	n := len(l.events)
+	if n == 0 {
+		return
+	}
+	if n > 20000 {
+		ex.unsupported("too many events for the race encoding")
+	}
+	ts := make([]*Term, n)
+	for i := range ts {
+		ts[i] = tt.Var(fmt.Sprintf("ts!%s!%d", name, i), W)
+	}
+	var cons []*Term
+	// program order per thread; spawn edges
+	last := map[int]int{}
+	first := map[int]int{}
+	for i, e := range l.events {
+		if p, ok := last[e.thread]; ok {
+			cons = append(cons, tt.Ult(ts[p], ts[i]))
+		} else {
+			first[e.thread] = i
+		}
+		last[e.thread] = i
+	}
+	for i, e := range l.events {
+		if e.kind == evSpawn {
+			if f, ok := first[e.child]; ok {
+				cons = append(cons, tt.Ult(ts[i], ts[f]))
+			}
+		}
+	}
+	// channel edges: k-th send happens before k-th receive completes
+	sends := map[*ChanVal][]int{}
+	recvs := map[*ChanVal][]int{}
+	for i, e := range l.events {
+		switch e.kind {
+		case evSend:
+			sends[e.ch] = append(sends[e.ch], i)
+		case evRecv:
+			recvs[e.ch] = append(recvs[e.ch], i)
+		}
+	}
+	for ch, ss := range sends {
+		rs := recvs[ch]
+		for k := 0; k < len(ss) && k < len(rs); k++ {
+			cons = append(cons, tt.Ult(ts[ss[k]], ts[rs[k]]))
+		}
+	}
+	// critical sections
+	type section struct {
+		start, end int
+		excl       bool
+		mu         *Cell
+		thread     int
+	}
+	var secs []section
+	open := map[*Cell][]int{} // indices into secs of open sections
+	leaks := 0
+	for i, e := range l.events {
+		switch e.kind {
+		case evLock, evRLock:
+			// self-deadlock: this logical thread already holds the mutex exclusively (or asks for
+			// exclusive access while holding it)
+			for _, si := range open[e.mu] {
+				s := secs[si]
+				if s.thread == e.thread && (s.excl || e.kind == evLock) {
+					ex.reportConcurrency(h, "no-deadlock", fmt.Sprintf("thread %s acquires a mutex it already holds at %s", l.threads[e.thread].tag, e.where))
+				}
+			}
+			secs = append(secs, section{start: i, end: -1, excl: e.kind == evLock, mu: e.mu, thread: e.thread})
+			open[e.mu] = append(open[e.mu], len(secs)-1)
+		case evUnlock, evRUnlock:
+			os := open[e.mu]
+			found := -1
+			for k := len(os) - 1; k >= 0; k-- {
+				if secs[os[k]].excl == (e.kind == evUnlock) {
+					found = k
+					break
+				}
+			}
+			if found < 0 {
+				ex.reportConcurrency(h, "no-unlock-of-unlocked", "unlock without a matching lock at "+e.where)
+				continue
+			}
+			secs[os[found]].end = i
+			open[e.mu] = append(os[:found:found], os[found+1:]...)
+		}
+	}
+	for _, os := range open {
+		leaks += len(os)
+	}
+	if leaks > 0 {
+		ex.reportConcurrency(h, "no-lock-leak", fmt.Sprintf("%d critical section(s) never released", leaks))
+	}
+	// section membership of every event: a section covers events between start and end that
+	// are ordered after start and before end by program/spawn order; we use the timestamp
+	// constraints start < e < end only for the thread(s) that perform start and end.
+	// mutual exclusion between sections of different logical threads
+	for i := 0; i < len(secs); i++ {
+		for j := i + 1; j < len(secs); j++ {
+			a, b := secs[i], secs[j]
+			if a.mu != b.mu || (!a.excl && !b.excl) || a.end < 0 || b.end < 0 {
+				continue
+			}
+			if a.thread == b.thread {
+				continue
+			}
+			cons = append(cons, tt.BOr(tt.Ult(ts[a.end], ts[b.start]), tt.Ult(ts[b.end], ts[a.start])))
+		}
+	}
+	// conflicting accesses
+	type acc struct {
+		i     int
+		write bool
+	}
+	byLoc := map[locKey][]acc{}
+	for i, e := range l.events {
+		if e.kind == evRead || e.kind == evWrite {
+			byLoc[e.loc] = append(byLoc[e.loc], acc{i, e.kind == evWrite})
+		}
+	}
+	// whole-array accesses (idx -1, from copy/append) conflict with every element access
+	type pair struct{ a, b int }
+	var cands []pair
+	addPairs := func(as []acc, bs []acc) {
+		seen := map[string]bool{}
+		for _, x := range as {
+			for _, y := range bs {
+				if x.i >= y.i && &as[0] == &bs[0] {
+					continue
+				}
+				if !x.write && !y.write {
+					continue
+				}
+				ex1, ey := l.events[x.i], l.events[y.i]
+				if ex1.thread == ey.thread {
+					continue
+				}
+				key := fmt.Sprintf("%d/%d/%v/%v/%s/%s", ex1.thread, ey.thread, x.write, y.write, ex1.where, ey.where)
+				if seen[key] {
+					continue
+				}
+				seen[key] = true
+				cands = append(cands, pair{x.i, y.i})
+			}
+		}
+	}
+	var keys []locKey
+	for k := range byLoc {
+		keys = append(keys, k)
+	}
+	sort.Slice(keys, func(i, j int) bool { return byLoc[keys[i]][0].i < byLoc[keys[j]][0].i })
+	for _, k := range keys {
+		as := byLoc[k]
+		addPairs(as, as)
+		if k.arr != nil && k.idx >= 0 {
+			if whole, ok := byLoc[locKey{arr: k.arr, idx: -1}]; ok {
+				addPairs(as, whole)
+			}
+		}
+	}
+	h.mu.Lock()
+	h.Obligations += len(cands)
+	h.mu.Unlock()
+	reported := map[string]bool{}
+	for _, p := range cands {
+		q := append(append([]*Term(nil), cons...), tt.Eq(ts[p.a], ts[p.b]))
+		r, _ := ex.solver.Check(q, false, nil, nil)
+		switch r {
+		case Unsat:
+			h.mu.Lock()
+			h.Discharged++
+			h.mu.Unlock()
+		case Sat:
+			ea, eb := l.events[p.a], l.events[p.b]
+			msg := fmt.Sprintf("data race between thread %s at %s and thread %s at %s", l.threads[ea.thread].tag, ea.where, l.threads[eb.thread].tag, eb.where)
+			if !reported[msg] {
+				reported[msg] = true
+				ex.reportConcurrency(h, "no-data-race", msg)
+			}
+		default:
+			h.mu.Lock()
+			h.Inconcl["solver unknown on race query"]++
+			h.mu.Unlock()
+		}
+	}
+	h.mu.Lock()
+	if len(h.Samples) < 6 {
+		h.Samples = append(h.Samples, fmt.Sprintf("race encoding %s: %d events, %d logical threads, %d critical sections, %d candidate pairs", name, n, len(l.threads), len(secs), len(cands)))
+	}
+	h.mu.Unlock()
+}
+
+func (ex *Exec) reportConcurrency(h *Harness, tag, msg string) {
+	r := ex.runner
+	// known-finding regions apply as for assertions
+	listed := ex.knownRegionTerms(r)
+	inKnown := ""
+	for _, rg := range listed {
+		if rg.cond.IsTrue() {
+			inKnown = rg.slug
+		}
+	}
+	res, m := ex.check(nil, true)
+	if res != Sat {
+		m = nil
+	}
+	in, order := ex.modelInputs(m)
+	v := &Violation{Harness: h.Name, Tag: tag, Kind: "race", Msg: msg, Inputs: in, Order: order, Region: inKnown}
+	h.mu.Lock()
+	h.Obligations++
+	if inKnown != "" {
+		h.Known = append(h.Known, v)
+	} else {
+		h.Violations = append(h.Violations, v)
+	}
+	h.mu.Unlock()
+}
